@@ -14,7 +14,7 @@ import numpy as np
 from numba import njit  # type: ignore
 from numpy.typing import NDArray
 
-from nucs.constants import EVENT_MASK_GROUND, MAX, MIN, PROP_CONSISTENCY, PROP_INCONSISTENCY
+from nucs.constants import EVENT_MASK_MIN_MAX_GROUND, MAX, MIN, PROP_CONSISTENCY, PROP_INCONSISTENCY
 
 PATH_START = 0
 PATH_END = 1
@@ -38,7 +38,7 @@ def get_triggers_no_sub_cycle(n: int, parameters: NDArray) -> NDArray:
     :param parameters: the parameters, unused here
     :return: an array of triggers
     """
-    return np.full(n, dtype=np.uint8, fill_value=EVENT_MASK_GROUND)
+    return np.full(n, dtype=np.uint8, fill_value=EVENT_MASK_MIN_MAX_GROUND)
 
 
 @njit(cache=True)
